@@ -51,8 +51,12 @@ type Run struct {
 	lastPut map[any]string // op tag of the last Put of an object
 	held    map[any]int    // how many current holders an object has (served twice => 2)
 
+	Lean  bool // -race build of C08: no log, no decisions, array-based pool model
+	lean  leanState
+
 	Sched     *Sched
 	LastSched *Sched
+	OnSwitch  func(to int) // harness hook: the baton now belongs to task `to`
 	InOp      bool
 }
 
@@ -118,7 +122,7 @@ func OrderedKeys[M ~map[K]V, K comparable, V any](m M, site string) []K {
 	}
 	sort.Sort(&byStr[K]{keys, strs})
 	r := cur
-	if r == nil {
+	if r == nil || r.Lean {
 		return keys
 	}
 	n := len(keys)
@@ -183,6 +187,9 @@ func (r *Run) pool(name string) *poolState {
 // picks the most recently freed object (0), an older one (1..len-1) or a miss
 // (len). Only objects the library itself freed are ever handed out.
 func (r *Run) PoolGet(name string, newf func() any) any {
+	if r.Lean {
+		return r.leanGet(name, newf)
+	}
 	Yield("pool.get")
 	p := r.pool(name)
 	if len(p.free) == 0 {
@@ -229,6 +236,10 @@ func (r *Run) PoolGet(name string, newf func() any) any {
 }
 
 func (r *Run) PoolPut(name string, x any) {
+	if r.Lean {
+		r.leanPut(name, x)
+		return
+	}
 	Yield("pool.put")
 	p := r.pool(name)
 	if x == nil {
@@ -284,6 +295,8 @@ func (r *Run) PoolSizes() map[string]int {
 
 // Yield is inserted by the instrumenter at every library function entry and
 // loop head, and called by the harness at pool calls, reads and callbacks.
+//
+//go:norace
 func Yield(site string) {
 	r := cur
 	if r == nil {
